@@ -141,12 +141,19 @@ Variable path_ok : list Z -> bool.
 Variable hdparse : list Z -> result (list Z * Z).
 Variable child_ok : list Z -> Z -> bool.
 
+(* the record the loop saves: fingerprint in lower case, path "m" + path.strip()[1:], the
+   re-encoded xpub *)
+Definition mk_norm (kr : keyrec) (xp : list Z) : keyrec :=
+  {| kr_xfp := lower (kr_xfp kr); kr_path := 109 :: tl (strip (kr_path kr)); kr_xpub := xp;
+     kr_idx := kr_idx kr |}.
+
 (* what the validation loop does with one record *)
 Definition norm1 (kr : keyrec) : result (keyrec * Z) :=
   if negb (path_ok (kr_path kr)) then Err else
   if negb (xfp_ok (kr_xfp kr)) then Err else
+  if negb (idx_ok (kr_idx kr)) then Err else
   '(xp, n) <- hdparse (kr_xpub kr) ;;
-  Ok ({| kr_xfp := kr_xfp kr; kr_path := kr_path kr; kr_xpub := xp; kr_idx := kr_idx kr |}, n).
+  Ok (mk_norm kr xp, n).
 
 Definition normed (kr : keyrec) : keyrec :=
   match norm1 kr with Ok (r, _) => r | Err => kr end.
@@ -165,22 +172,22 @@ Proof.
       unfold normed. unfold norm1 in *.
       destruct (negb (path_ok (kr_path kr))); [discriminate|].
       destruct (negb (xfp_ok (kr_xfp kr))); [discriminate|].
+      destruct (negb (idx_ok (kr_idx kr))); [discriminate|].
       destruct (hdparse (kr_xpub kr)) as [[xp n']|]; [|discriminate]. cbn [bind] in *.
       apply Ok_inj in Hr. injection Hr as E1 E2. subst n'. rewrite Z.eqb_refl. cbn [negb].
       rewrite IH1. reflexivity.
     + intros rs nf H.
       destruct (negb (path_ok (kr_path kr))) eqn:E1; [discriminate|].
       destruct (negb (xfp_ok (kr_xfp kr))) eqn:E2; [discriminate|].
+      destruct (negb (idx_ok (kr_idx kr))) eqn:E4; [discriminate|].
       destruct (hdparse (kr_xpub kr)) as [[xp n']|] eqn:E3; [|discriminate]. cbn [bind] in *.
       destruct (Z.eqb_spec n n') as [EQ|N]; [|discriminate]. subst n'. cbn [negb] in H.
       destruct (check_recs path_ok hdparse (Some n) l) as [[rs' nf']|] eqn:E; [|discriminate].
       cbn [bind] in H. apply Ok_inj in H. injection H as <- <-.
       destruct (IH2 rs' nf' eq_refl) as [F [-> ->]].
-      assert (N1 : norm1 kr = Ok ({| kr_xfp := kr_xfp kr; kr_path := kr_path kr; kr_xpub := xp;
-                                     kr_idx := kr_idx kr |}, n)).
-      { unfold norm1. rewrite E1, E2, E3. reflexivity. }
-      assert (NK : normed kr = {| kr_xfp := kr_xfp kr; kr_path := kr_path kr; kr_xpub := xp;
-                                  kr_idx := kr_idx kr |}) by (unfold normed; rewrite N1; reflexivity).
+      assert (N1 : norm1 kr = Ok (mk_norm kr xp, n)).
+      { unfold norm1. rewrite E1, E2, E4, E3. reflexivity. }
+      assert (NK : normed kr = mk_norm kr xp) by (unfold normed; rewrite N1; reflexivity).
       split; [constructor; [eexists; exact N1|exact F]|]. rewrite NK. auto.
 Qed.
 
@@ -193,20 +200,20 @@ Proof.
   - intros H.
     destruct (negb (path_ok (kr_path kr))) eqn:E1; [discriminate|].
     destruct (negb (xfp_ok (kr_xfp kr))) eqn:E2; [discriminate|].
+    destruct (negb (idx_ok (kr_idx kr))) eqn:E4; [discriminate|].
     destruct (hdparse (kr_xpub kr)) as [[xp n]|] eqn:E3; [|discriminate]. cbn [bind negb] in *.
     destruct (check_recs path_ok hdparse (Some n) l) as [[rs' nf']|] eqn:E; [|discriminate].
     cbn [bind] in H. apply Ok_inj in H. injection H as <- <-.
     destruct (proj2 (check_recs_some n l) rs' nf' E) as [F [-> ->]].
-    assert (N1 : norm1 kr = Ok ({| kr_xfp := kr_xfp kr; kr_path := kr_path kr; kr_xpub := xp;
-                                   kr_idx := kr_idx kr |}, n)).
-    { unfold norm1. rewrite E1, E2, E3. reflexivity. }
-    assert (NK : normed kr = {| kr_xfp := kr_xfp kr; kr_path := kr_path kr; kr_xpub := xp;
-                                kr_idx := kr_idx kr |}) by (unfold normed; rewrite N1; reflexivity).
+    assert (N1 : norm1 kr = Ok (mk_norm kr xp, n)).
+    { unfold norm1. rewrite E1, E2, E4, E3. reflexivity. }
+    assert (NK : normed kr = mk_norm kr xp) by (unfold normed; rewrite N1; reflexivity).
     exists n. split; [constructor; [eexists; exact N1|exact F]|]. cbn [map]. rewrite NK. auto.
   - intros [n [HF [-> ->]]]. inversion HF as [|? ? [r Hr] HF']; subst.
     cbn [map]. unfold normed at 1. unfold norm1 in *.
     destruct (negb (path_ok (kr_path kr))); [discriminate|].
     destruct (negb (xfp_ok (kr_xfp kr))); [discriminate|].
+    destruct (negb (idx_ok (kr_idx kr))); [discriminate|].
     destruct (hdparse (kr_xpub kr)) as [[xp n']|]; [|discriminate]. cbn [bind negb] in *.
     apply Ok_inj in Hr. injection Hr as E1 E2. subst n'.
     rewrite (proj1 (check_recs_some n l) HF'). reflexivity.
@@ -226,6 +233,8 @@ Proof.
   { apply Permutation_sym, Permutation_nil in HP. discriminate. }
   set (l := r0 :: recs0) in *. set (l' := r0' :: recs0') in *.
   assert (NE : l <> []) by discriminate. assert (NE' : l' <> []) by discriminate.
+  assert (LL : zlen l = zlen l') by (unfold zlen; now rewrite (Permutation_length HP)).
+  rewrite <- LL. destruct (m >? zlen l); [reflexivity|].
   destruct (check_recs path_ok hdparse None l) as [[rs nf]|] eqn:E.
   - apply (check_recs_none l rs nf NE) in E. destruct E as [n [HF [-> ->]]].
     assert (E' : check_recs path_ok hdparse None l' = Ok (map normed l', Some n)).
@@ -252,11 +261,13 @@ Lemma construct_ok m recs cs srt d :
   exists n, Forall (rec_ok n) recs /\
     d_recs d = (if srt then sort_by kr_xpub (map normed recs) else map normed recs) /\
     d_m d = m /\ d_net d = n /\ d_text d = render_text m (d_recs d) /\
-    desc_checksum (d_text d) = Ok (d_checksum d) /\ (cs = [] \/ cs = d_checksum d).
+    desc_checksum (d_text d) = Ok (d_checksum d) /\ (cs = [] \/ cs = d_checksum d) /\
+    m <= zlen recs.
 Proof.
   unfold construct. destruct (Z.ltb_spec m 1) as [M0|M0]; [discriminate|].
   destruct recs as [|r0 recs0]; [discriminate|]. set (l := r0 :: recs0) in *.
   assert (NE : l <> []) by discriminate.
+  destruct (Z.gtb_spec m (zlen l)) as [MN|MN]; [discriminate|].
   destruct (check_recs path_ok hdparse None l) as [[rs nf]|] eqn:E; [|discriminate].
   apply (check_recs_none l rs nf NE) in E. destruct E as [n [HF [-> ->]]]. cbn [bind].
   set (rs := if srt then sort_by kr_xpub (map normed l) else map normed l).
@@ -277,7 +288,7 @@ Proof.
   intros H Hne Hcs.
   destruct (construct path_ok hdparse m recs cs srt) as [d'|] eqn:E; [|reflexivity]. exfalso.
   destruct (construct_ok _ _ _ _ _ H) as [_ [_ [n [_ [R [M [_ [T [C _]]]]]]]]].
-  destruct (construct_ok _ _ _ _ _ E) as [_ [_ [n' [_ [R' [M' [_ [T' [C' [X|X]]]]]]]]]]; [contradiction|].
+  destruct (construct_ok _ _ _ _ _ E) as [_ [_ [n' [_ [R' [M' [_ [T' [C' [[X|X] _]]]]]]]]]]; [contradiction|].
   apply Hcs. rewrite X.
   assert (TT : d_text d' = d_text d) by (rewrite T, T', R, R'; reflexivity).
   rewrite TT in C'. congruence.
@@ -295,40 +306,185 @@ Proof.
   now rewrite (H2 c Hc).
 Qed.
 
+(* ---- str.strip ---- *)
+Lemma lstrip_split l : exists w, l = w ++ lstrip l.
+Proof.
+  induction l as [|c l [w IH]]; [now exists []|]. cbn [lstrip].
+  destruct (is_ws c); [exists (c :: w); cbn [app]; now rewrite <- IH|now exists []].
+Qed.
+
+Lemma lstrip_hd l : lstrip l = [] \/ is_ws (hd 0 (lstrip l)) = false.
+Proof.
+  induction l as [|c l IH]; [now left|]. cbn [lstrip]. destruct (is_ws c) eqn:E; [exact IH|now right].
+Qed.
+
+Lemma lstrip_nows c s : is_ws c = false -> lstrip (c :: s) = c :: s.
+Proof. intros H. cbn [lstrip]. now rewrite H. Qed.
+
+Lemma rev_nil_inv {A} (l : list A) : rev l = [] -> l = [].
+Proof. intros H. apply (f_equal (@length A)) in H. rewrite rev_length in H. now destruct l. Qed.
+
+Lemma strip_fix s : s <> [] ->
+  is_ws (hd 0 s) = false -> is_ws (hd 0 (rev s)) = false -> strip s = s.
+Proof.
+  intros NE H1 H2. unfold strip. destruct s as [|c s]; [congruence|].
+  cbn [hd] in H1. rewrite (lstrip_nows c s H1).
+  destruct (rev (c :: s)) as [|e t] eqn:E; [now apply rev_nil_inv in E|].
+  cbn [hd] in H2. rewrite (lstrip_nows e t H2), <- E. apply rev_involutive.
+Qed.
+
+Lemma hd_app_ne (a b : list Z) : a <> [] -> hd 0 (a ++ b) = hd 0 a.
+Proof. destruct a; [congruence|reflexivity]. Qed.
+
+Lemma strip_ends p :
+  strip p = [] \/ (is_ws (hd 0 (strip p)) = false /\ is_ws (hd 0 (rev (strip p))) = false).
+Proof.
+  unfold strip. set (a := lstrip p). set (b := lstrip (rev a)).
+  destruct b as [|e t] eqn:EB; [now left|]. right. rewrite rev_involutive.
+  split.
+  - destruct (lstrip_split (rev a)) as [w Hw]. fold b in Hw. rewrite EB in Hw.
+    apply (f_equal (@rev Z)) in Hw. rewrite rev_involutive, rev_app_distr in Hw.
+    assert (NE : rev (e :: t) <> []) by (intros X; now apply rev_nil_inv in X).
+    destruct (lstrip_hd p) as [X|X]; fold a in X.
+    + rewrite X in Hw. symmetry in Hw. apply app_eq_nil in Hw as [Hw _]. contradiction.
+    + rewrite Hw, (hd_app_ne _ _ NE) in X. exact X.
+  - destruct (lstrip_hd (rev a)) as [X|X]; fold b in X; rewrite EB in X; [discriminate|exact X].
+Qed.
+
+(* "m" + path.strip()[1:] is a fixed point of the same rewriting *)
+Lemma norm_path_fix p : strip (109 :: tl (strip p)) = 109 :: tl (strip p).
+Proof.
+  destruct (strip_ends p) as [E|[_ H2]]; [rewrite E; reflexivity|].
+  destruct (strip p) as [|c t]; [reflexivity|]. cbn [tl].
+  destruct t as [|c2 t]; [reflexivity|].
+  apply strip_fix; [discriminate|reflexivity|].
+  cbn [rev] in *. set (r := rev t ++ [c2]) in *.
+  assert (NE : r <> []) by (unfold r; intros X; apply app_eq_nil in X as [_ X]; discriminate).
+  rewrite (hd_app_ne r [c] NE) in H2. now rewrite (hd_app_ne r [109] NE).
+Qed.
+
+(* ---- str.lower ---- *)
+Lemma lower_c_idem c : lower_c (lower_c c) = lower_c c.
+Proof.
+  unfold lower_c. destruct (Z.leb_spec 65 c), (Z.leb_spec c 90); cbn [andb];
+    repeat match goal with |- context [Z.leb ?a ?b] => destruct (Z.leb_spec a b) end;
+    cbn [andb]; try reflexivity; lia.
+Qed.
+
+Lemma lower_idem s : lower (lower s) = lower s.
+Proof. unfold lower. rewrite map_map. apply map_ext. apply lower_c_idem. Qed.
+
+Lemma hex_lower_of_any c : hex_any_char c = true -> hex_lower_char (lower_c c) = true.
+Proof.
+  unfold hex_any_char, hex_lower_char, lower_c. intros H.
+  destruct (Z.leb_spec 48 c), (Z.leb_spec c 57), (Z.leb_spec 97 c), (Z.leb_spec c 102),
+    (Z.leb_spec 65 c), (Z.leb_spec c 70), (Z.leb_spec c 90); cbn in H; try discriminate;
+    cbn [andb];
+    repeat match goal with |- context [Z.leb ?a ?b] => destruct (Z.leb_spec a b) end;
+    cbn; try reflexivity; lia.
+Qed.
+
+(* a valid fingerprint without a line feed is, in lower case, what the key-record regex reads *)
+Lemma xfp_lower s : xfp_ok s = true -> ~ In 10 (lower s) -> xfp_re_ok (lower s) = true.
+Proof.
+  unfold xfp_ok, xfp_re_ok. intros H NL. apply andb_true_iff in H as [H1 H2].
+  unfold lower at 1. rewrite map_length, H1. cbn [andb].
+  apply orb_true_iff in H2 as [H2|H2].
+  - apply forallb_forall. intros c Hc. apply in_map_iff in Hc as [c0 [<- Hc]].
+    rewrite forallb_forall in H2. apply hex_lower_of_any, H2, Hc.
+  - exfalso. apply NL. destruct (rev s) as [|e r] eqn:E; [discriminate|].
+    destruct (Z.eqb_spec e 10) as [->|N].
+    + assert (I : In 10 s) by (apply in_rev; rewrite E; now left).
+      change 10 with (lower_c 10). now apply in_map.
+    + destruct e as [|q|q]; try discriminate.
+      do 4 (destruct q as [q|q|]; try discriminate). congruence.
+Qed.
+
+(* ---- the characters of a text whose checksum could be computed ---- *)
+Lemma checksum_ok_chars t cs c : desc_checksum t = Ok cs -> In c t -> in_core_charset c = true.
+Proof.
+  intros H I. destruct (desc_checksum_eq_core_full t) as [E _]. rewrite H in E.
+  destruct (forallb in_core_charset t) eqn:F; [|discriminate].
+  rewrite forallb_forall in F. now apply F.
+Qed.
+
+Lemma in_render_rec_xfp kr c : In c (kr_xfp kr) -> In c (render_rec kr).
+Proof. intros H. unfold render_rec. apply in_or_app. right. apply in_or_app. now left. Qed.
+
+Lemma in_render_text m recs kr c : In kr recs -> In c (render_rec kr) -> In c (render_text m recs).
+Proof.
+  intros Hk Hc. unfold render_text. apply in_or_app. right. apply in_or_app. right.
+  apply in_or_app. left. apply in_concat. exists (render_rec kr). split; [now apply in_map|exact Hc].
+Qed.
+
 (* hypotheses about the HD layer under which the text round trip holds:
    re-encoding is idempotent (the xpub printed in the descriptor parses to itself and to the
-   same network), and the child at the account index exists. *)
+   same network); the path check is stable under the constructor's rewriting of the path
+   (is_valid_bip32_path lower-cases and strips before it looks at the text). *)
 Definition hd_idempotent : Prop :=
   forall x xp n, hdparse x = Ok (xp, n) -> hdparse xp = Ok (xp, n).
+Definition path_norm_ok : Prop :=
+  forall p, path_ok p = true -> path_ok (109 :: tl (strip p)) = true.
 
-Theorem descriptor_text_roundtrip m recs d :
-  hd_idempotent ->
-  construct path_ok hdparse m recs [] true = Ok d ->
-  m <= zlen recs ->
-  Forall lower_xfp recs -> Forall path_m recs ->
+(* every saved record of a constructed descriptor *)
+Lemma constructed_recs m recs cs srt d :
+  construct path_ok hdparse m recs cs srt = Ok d ->
+  forall kr, In kr (d_recs d) ->
+    exists kr0 xp, In kr0 recs /\ kr = mk_norm kr0 xp /\
+      path_ok (kr_path kr0) = true /\ xfp_ok (kr_xfp kr0) = true /\ idx_ok (kr_idx kr0) = true /\
+      hdparse (kr_xpub kr0) = Ok (xp, d_net d) /\ xfp_re_ok (kr_xfp kr) = true.
+Proof.
+  intros H kr Hk.
+  destruct (construct_ok _ _ _ _ _ H) as [M1 [NE [n [HF [R [M [N [T [C _]]]]]]]]].
+  assert (Hk0 : In kr (map normed recs)).
+  { rewrite R in Hk. destruct srt; [|exact Hk].
+    exact (Permutation_in _ (Permutation_sym (sort_perm kr_xpub (map normed recs))) Hk). }
+  apply in_map_iff in Hk0 as [kr0 [E I0]]. rewrite Forall_forall in HF.
+  destruct (HF kr0 I0) as [r Hr]. unfold normed in E. rewrite Hr in E. subst r.
+  unfold norm1 in Hr.
+  destruct (path_ok (kr_path kr0)) eqn:E1; [|discriminate]. cbn [negb] in Hr.
+  destruct (xfp_ok (kr_xfp kr0)) eqn:E2; [|discriminate]. cbn [negb] in Hr.
+  destruct (idx_ok (kr_idx kr0)) eqn:E4; [|discriminate]. cbn [negb] in Hr.
+  destruct (hdparse (kr_xpub kr0)) as [[xp n']|] eqn:E3; [|discriminate]. cbn [bind] in Hr.
+  apply Ok_inj in Hr. injection Hr as Hr1 Hr2. subst n'.
+  exists kr0, xp. rewrite N. repeat split; auto.
+  rewrite <- Hr1. cbn [mk_norm kr_xfp]. apply xfp_lower; [exact E2|].
+  intros I10. assert (X : in_core_charset 10 = true).
+  { apply (checksum_ok_chars (d_text d) (d_checksum d) 10 C). rewrite T.
+    apply (in_render_text _ _ kr 10 Hk). apply in_render_rec_xfp. rewrite <- Hr1. exact I10. }
+  vm_compute in X. discriminate.
+Qed.
+
+Lemma construct_recs_length m recs cs srt d :
+  construct path_ok hdparse m recs cs srt = Ok d -> zlen (d_recs d) = zlen recs.
+Proof.
+  intros H. destruct (construct_ok _ _ _ _ _ H) as [_ [_ [n [_ [R _]]]]].
+  unfold zlen. rewrite R. destruct srt; [rewrite sort_by_length|]; now rewrite map_length.
+Qed.
+
+(* whatever the constructor accepts, the fields of its text are read back to the same
+   descriptor (m, records, text, checksum, network), with and without the checksum; no
+   condition on the spelling of the supplied records is left *)
+Theorem descriptor_text_roundtrip m recs cs srt d :
+  hd_idempotent -> path_norm_ok ->
+  construct path_ok hdparse m recs cs srt = Ok d ->
   Forall (fun kr => child_ok (kr_xpub kr) (kr_idx kr) = true) (d_recs d) ->
   parse_struct path_ok hdparse child_ok (d_m d) (fields_of d) (d_checksum d) = Ok d /\
   parse_struct path_ok hdparse child_ok (d_m d) (fields_of d) [] = Ok d.
 Proof.
-  intros HI H Hm HX HP HC.
-  destruct (construct_ok _ _ _ _ _ H) as [M1 [NE [n [HF [R [M [N [T [C _]]]]]]]]].
-  (* every record of d is a normalised input record *)
-  assert (RD : forall kr, In kr (d_recs d) -> exists kr0, In kr0 recs /\ kr = normed kr0).
-  { intros kr Hk. rewrite R in Hk.
-    apply (Permutation_in _ (Permutation_sym (sort_perm kr_xpub (map normed recs)))) in Hk.
-    apply in_map_iff in Hk as [kr0 [E Hk]]. now exists kr0. }
+  intros HI HPN H HC.
+  destruct (construct_ok _ _ _ _ _ H) as [M1 [NE [n [HF [R [M [N [T [C [_ MN]]]]]]]]]].
+  pose proof (constructed_recs _ _ _ _ _ H) as RD.
   assert (FACT : forall kr, In kr (d_recs d) ->
-            xfp_re_ok (kr_xfp kr) = true /\ (exists t, kr_path kr = 109 :: t) /\
-            path_ok (kr_path kr) = true /\ hdparse (kr_xpub kr) = Ok (kr_xpub kr, n)).
-  { intros kr Hk. destruct (RD kr Hk) as [kr0 [I0 ->]].
-    rewrite Forall_forall in HF, HX, HP. destruct (HF kr0 I0) as [r Hr].
-    pose proof (HX kr0 I0) as X0. pose proof (HP kr0 I0) as P0.
-    unfold normed. rewrite Hr. unfold norm1 in Hr.
-    destruct (path_ok (kr_path kr0)) eqn:E1; [|discriminate]. cbn [negb] in Hr.
-    destruct (negb (xfp_ok (kr_xfp kr0))); [discriminate|].
-    destruct (hdparse (kr_xpub kr0)) as [[xp n']|] eqn:E3; [|discriminate]. cbn [bind] in Hr.
-    apply Ok_inj in Hr. injection Hr as <- <-. cbn.
-    repeat split; auto. apply (HI _ _ _ E3). }
+            xfp_re_ok (kr_xfp kr) = true /\ kr_path kr = 109 :: tl (kr_path kr) /\
+            path_ok (kr_path kr) = true /\ hdparse (kr_xpub kr) = Ok (kr_xpub kr, n) /\
+            idx_ok (kr_idx kr) = true /\ strip (kr_path kr) = kr_path kr /\
+            lower (kr_xfp kr) = kr_xfp kr).
+  { intros kr Hk. destruct (RD kr Hk) as [kr0 [xp [I0 [-> [P0 [X0 [J0 [H0 XR]]]]]]]].
+    cbn [mk_norm kr_xfp kr_path kr_xpub kr_idx tl] in *. rewrite N in H0.
+    split; [exact XR|]. split; [reflexivity|]. split; [now apply HPN|].
+    split; [exact (HI _ _ _ H0)|]. split; [exact J0|].
+    split; [apply norm_path_fix|apply lower_idem]. }
   (* parse_recs gives the records back *)
   assert (PR : parse_recs path_ok hdparse child_ok (fields_of d) = Ok (d_recs d)).
   { unfold fields_of. rewrite Forall_forall in HC.
@@ -337,35 +493,36 @@ Proof.
                 (map (fun kr => {| kr_xfp := kr_xfp kr; kr_path := tl (kr_path kr);
                                    kr_xpub := kr_xpub kr; kr_idx := kr_idx kr |}) l) = Ok l).
     { induction l as [|kr l IH]; intros Hl; [reflexivity|]. cbn [map parse_recs].
-      destruct (FACT kr (Hl kr (or_introl eq_refl))) as [F1 [[t F2] [F3 F4]]].
+      destruct (FACT kr (Hl kr (or_introl eq_refl))) as [F1 [F2 [F3 [F4 _]]]].
       unfold parse_rec. cbn [kr_xfp kr_path kr_xpub kr_idx]. rewrite F1. cbn [negb].
-      rewrite F2. cbn [tl]. rewrite <- F2, F3. cbn [negb]. rewrite F4. cbn [bind].
+      rewrite <- F2, F3. cbn [negb]. rewrite F4. cbn [bind].
       rewrite (HC kr (Hl kr (or_introl eq_refl))). cbn [negb bind].
       rewrite IH by (intros k Hk; apply Hl; now right). cbn [bind].
       destruct kr; reflexivity. }
     apply G. auto. }
   (* and the constructor (no sorting this time) accepts them *)
-  assert (LEN : zlen (d_recs d) = zlen recs).
-  { unfold zlen. rewrite R, sort_by_length, map_length. reflexivity. }
+  pose proof (construct_recs_length _ _ _ _ _ H) as LEN.
+  assert (NORM : forall kr, In kr (d_recs d) -> norm1 kr = Ok (kr, n)).
+  { intros kr Hk. destruct (FACT kr Hk) as [F1 [F2 [F3 [F4 [F5 [F6 F7]]]]]].
+    unfold norm1, mk_norm. rewrite F3, (xfp_re_ok_xfp_ok _ F1), F5, F4. cbn [negb bind].
+    rewrite F6, F7, <- F2. destruct kr; reflexivity. }
   assert (ID : map normed (d_recs d) = d_recs d).
   { rewrite <- (map_id (d_recs d)) at 2. apply map_ext_in. intros kr Hk.
-    destruct (FACT kr Hk) as [F1 [_ [F3 F4]]]. unfold normed, norm1.
-    rewrite F3, (xfp_re_ok_xfp_ok _ F1), F4. cbn. destruct kr; reflexivity. }
+    unfold normed. now rewrite (NORM kr Hk). }
+  assert (NE2 : d_recs d <> []).
+  { intros E0. apply NE. assert (L0 : zlen recs = 0) by (rewrite <- LEN, E0; reflexivity).
+    unfold zlen in L0. destruct recs; [reflexivity|cbn in L0; lia]. }
   assert (CK : check_recs path_ok hdparse None (d_recs d) = Ok (d_recs d, Some n)).
-  { assert (NE2 : d_recs d <> []).
-    { intros E0. apply NE. assert (L0 : zlen recs = 0) by (rewrite <- LEN, E0; reflexivity).
-      unfold zlen in L0. destruct recs; [reflexivity|cbn in L0; lia]. }
-    apply (check_recs_none _ _ _ NE2). exists n. split; [|rewrite ID; auto].
-    apply Forall_forall. intros kr Hk. destruct (FACT kr Hk) as [F1 [_ [F3 F4]]].
-    unfold rec_ok, norm1. rewrite F3, (xfp_re_ok_xfp_ok _ F1), F4. cbn. eexists. reflexivity. }
-  assert (GO : forall cs, cs = [] \/ cs = d_checksum d ->
-           parse_struct path_ok hdparse child_ok (d_m d) (fields_of d) cs = Ok d).
-  { intros cs Hcs. unfold parse_struct. rewrite PR. cbn [bind]. rewrite LEN, M.
+  { apply (check_recs_none _ _ _ NE2). exists n. split; [|rewrite ID; auto].
+    apply Forall_forall. intros kr Hk. exists kr. exact (NORM kr Hk). }
+  assert (GO : forall cs', cs' = [] \/ cs' = d_checksum d ->
+           parse_struct path_ok hdparse child_ok (d_m d) (fields_of d) cs' = Ok d).
+  { intros cs' Hcs. unfold parse_struct. rewrite PR. cbn [bind]. rewrite LEN, M.
     destruct (Z.gtb_spec m (zlen recs)); [lia|]. unfold construct.
     destruct (Z.ltb_spec m 1); [lia|].
-    destruct (d_recs d) as [|k0 ks] eqn:ED.
-    { exfalso. rewrite <- LEN in Hm. cbn in Hm. lia. }
-    rewrite <- ED in *. rewrite CK. cbn [bind]. rewrite <- T, C. cbn [bind].
+    destruct (d_recs d) as [|k0 ks] eqn:ED; [congruence|].
+    rewrite <- ED in *. rewrite LEN. destruct (Z.gtb_spec m (zlen recs)); [lia|].
+    rewrite CK. cbn [bind]. rewrite <- T, C. cbn [bind].
     destruct Hcs as [->| ->].
     - destruct d; cbn in *. subst. reflexivity.
     - destruct (d_checksum d) eqn:EC.
